@@ -49,7 +49,8 @@ def conc_profile(m, h, p, w):
     for i in range(1, len(hv)):
         if hv[i] <= hv[i - 1]:
             hv[i] = hv[i - 1] + 1.0
-    pv = numpy.abs(numpy.asarray(m(p), dtype=float)) + 1e-3
+    pv = numpy.abs(numpy.asarray(m(p), dtype=float))      # the witness's strengths as they are (physical Cn2 dh values are ~1e-15)
+    pv[pv == 0] = 1e-3
     wv = (numpy.abs(numpy.asarray(m(w), dtype=float)) + 1e-3) if w is not None else None
     return hv, pv, wv
 
